@@ -10,7 +10,7 @@ from ..sites import guard_chain
 from .util import ckey
 
 
-def mst_colour_keys(repo: Repo, rep: Report, rule: str) -> None:
+def mst_colour_keys(repo: Repo, rep: Report, rule: str, include_reversed: bool = True) -> None:
     """Colour entries stored under keys that derive from the position-dependent spanning tree may only add, never replace."""
     mst = repo.func("ConnectionPlanner._apply_mst_to_source_fanout")
     dum = DefUse(mst)
@@ -26,7 +26,11 @@ def mst_colour_keys(repo: Repo, rep: Report, rule: str) -> None:
             continue
         positional = any(l.kind == "call" and "minimum_spanning_tree" in l.text for l in dum.leaves(key)) or any(
             "mst_edges" in norm(v) for x in ast.walk(key) if isinstance(x, ast.Name) for v in dum.value_exprs(x.id))
-        if not positional:
+        # the logical edge being routed, (source_id, <its sink>, signal): the one key this function owns; every other key (the reversed pair kept "for
+        # bidirectional lookups", the spanning tree's pairs) may name an edge of its own that another group routes
+        own_edge = isinstance(key, ast.Tuple) and len(key.elts) == 3 and isinstance(key.elts[0], ast.Name) and key.elts[0].id in mst.params \
+            and any(l.kind == "param" and "sink" in l.text for l in dum.leaves(key.elts[1])) and not positional
+        if own_edge or (not positional and not include_reversed):
             continue
         n_keys += 1
         st = n
@@ -35,10 +39,10 @@ def mst_colour_keys(repo: Repo, rep: Report, rule: str) -> None:
         guarded = how == "setdefault" or any(isinstance(t, ast.Compare) and len(t.ops) == 1 and norm(t.comparators[0]) == "self._edge_wire_colors" and norm(t.left) == norm(key)
                                             and ((isinstance(t.ops[0], ast.NotIn) and pol) or (isinstance(t.ops[0], ast.In) and not pol))
                                             for t, pol in guard_chain(mst, st, pmm))
-        rep.check(guarded, rule, f"{mst.short}: colour under position-derived key `{ckey(mst, key)}` never replaces an existing entry",
+        rep.check(guarded, rule, f"{mst.short}: colour under {'position-derived' if positional else 'foreign (reversed)'} key `{ckey(mst, key)}` never replaces an existing entry",
                   "guarded by `not in` / setdefault" if guarded else
-                  "which pairs the spanning tree joins depends on placement; an unguarded store under such a key can overwrite the colour recorded for a real producer->consumer edge of the same signal, "
-                  "so the consumer's operand reads the wrong network", mst.loc(n))
+                  ("which pairs the spanning tree joins depends on placement; " if positional else "the reversed pair of a fan-out edge is an edge of its own in a two-combinator loop; ") +
+                  "an unguarded store under such a key can overwrite the colour recorded for a real producer->consumer edge of the same signal, so the consumer's operand reads the wrong network", mst.loc(n))
     rep.floor(rule, "colour stores under spanning-tree keys", n_keys, 2)
 
 
